@@ -190,7 +190,17 @@ func (s *Solver) Check(asserts []*Term, wantModel bool) (Result, map[string]stri
 	ans, err := s.readAnswerTimed()
 	if dir := os.Getenv("VERIF_SLOWDIR"); dir != "" && time.Since(t0) > 5*time.Second {
 		// debugging aid: keep the text of slow queries (definitions sent earlier are not included)
-		os.WriteFile(fmt.Sprintf("%s/slow-%d-%d.smt2", dir, os.Getpid(), s.Stats.Queries), []byte(sb.String()+"; answer: "+ans+"\n"), 0o644)
+		// self-contained text: all definitions the assertions depend on
+		var full strings.Builder
+		fp := NewPrinter(s.pr.tt)
+		for _, a := range asserts {
+			fp.Define(a, &full)
+		}
+		for _, a := range asserts {
+			fmt.Fprintf(&full, "(assert %s)\n", fp.ref(a))
+		}
+		full.WriteString("(check-sat)\n")
+		os.WriteFile(fmt.Sprintf("%s/slow-%d-%d.smt2", dir, os.Getpid(), s.Stats.Queries), []byte(full.String()+"; answer: "+ans+" after "+time.Since(t0).String()+"\n"), 0o644)
 	}
 	if err != nil {
 		s.Stats.NUnknown++
